@@ -34,7 +34,8 @@ class ComposedNode(ConfigNode):
         def set_child(self, name, value):
             value = ConfigNode(value, **self._get_child_kwargs())
             self._children[name] = value
-            value._propagate_implicit_values()
+            if hasattr(self, '_delete'): # not while unpickling/copying (see _get_child_kwargs): the child comes with its flags, and those of its own children, as they were
+                value._propagate_implicit_values()
             return value
 
         def remove_child(self, name):
